@@ -29,6 +29,33 @@ def model():
     return LinearModel()
 
 
+CONTAINERS = ["list", "int64", "tuple", "int32", "fortran", "view", "uint8", "list_of_arrays"]
+
+
+def contain(pairs, kind):
+    """the same index pairs in another legal container (None when there is no pair)"""
+    if not pairs:
+        return None
+    if kind == "list":
+        return [list(p) for p in pairs]
+    if kind == "tuple":
+        return tuple(tuple(p) for p in pairs)
+    if kind == "list_of_arrays":
+        return [np.array(p) for p in pairs]
+    a = np.array(pairs, dtype=np.int64).reshape(-1, 2)
+    if kind == "int32":
+        return a.astype(np.int32)
+    if kind == "uint8":
+        return a.astype(np.uint8) if a.max() < 256 else a
+    if kind == "fortran":
+        return np.asfortranarray(a)
+    if kind == "view":
+        big = np.full((2 * len(a), 5), -7, dtype=np.int64)
+        big[::2, 1::2] = a
+        return big[::2, 1::2]
+    return a
+
+
 # ------------------------------------------------------------------------------------------------ validation
 @st.composite
 def valid_case(draw):
@@ -40,15 +67,23 @@ def valid_case(draw):
     ml = draw(st.lists(pair, min_size=0, max_size=7))
     cl = draw(st.lists(pair, min_size=0, max_size=5))
     return {"ml": [list(p) for p in ml], "cl": [list(p) for p in cl], "as_array": draw(st.booleans()),
-            "factor": draw(st.sampled_from([0.1, 1.0, 2.5]))}
+            "factor": draw(st.sampled_from([0.1, 1.0, 2.5])),
+            "containers": [draw(st.sampled_from(CONTAINERS)), draw(st.sampled_from(CONTAINERS))]}
 
 
 def oracle_valid(case):
     from gemclus import add_mlcl_constraint
     ml, cl = case["ml"], case["cl"]
     want = mlcl_ref.consistent(ml, cl)
-    a_ml = (np.array(ml, dtype=int).reshape(-1, 2) if case["as_array"] else ml) if ml else None
-    a_cl = (np.array(cl, dtype=int).reshape(-1, 2) if case["as_array"] else cl) if cl else None
+    if "containers" in case:
+        a_ml, a_cl = contain(ml, case["containers"][0]), contain(cl, case["containers"][1])
+        if not ml and case["as_array"]:
+            a_ml = [] if case["containers"][0] == "list" else np.zeros((0, 2), dtype=int)  # "no pair" given as an empty container
+        if not cl and not case["as_array"]:
+            a_cl = [] if case["containers"][1] == "list" else np.zeros((0, 2), dtype=int)
+    else:
+        a_ml = (np.array(ml, dtype=int).reshape(-1, 2) if case["as_array"] else ml) if ml else None
+        a_cl = (np.array(cl, dtype=int).reshape(-1, 2) if case["as_array"] else cl) if cl else None
     try:
         with warnings.catch_warnings():
             warnings.simplefilter("ignore")
@@ -69,7 +104,7 @@ def oracle_valid(case):
     for v in comp.values():
         sizes[v] = sizes.get(v, 0) + 1
     big = max(sizes.values()) if sizes else 0
-    return {"nontrivial": bool(ml and cl and big >= 3), "classes": ["accepted" if want else "rejected"]}
+    return {"nontrivial": bool(ml and cl and big >= 3), "classes": ["accepted" if want else "rejected"] + ["pairs:" + k for k in case.get("containers", [])]}
 
 
 @st.composite
@@ -115,7 +150,8 @@ def train_case(draw, path=False):
                           min_size=1, max_size=8))
     ml = [[i, j] for i, j in pairs if groups[i] == groups[j]]
     cl = [[i, j] for i, j in pairs if groups[i] != groups[j]]
-    out = {"spec": s, "ml": ml, "cl": cl, "factor": draw(st.sampled_from([0.5, 1.0, 3.0]))}
+    out = {"spec": s, "ml": ml, "cl": cl, "factor": draw(st.sampled_from([0.5, 1.0, 3.0])),
+           "containers": [draw(st.sampled_from(CONTAINERS)), draw(st.sampled_from(CONTAINERS))]}
     if path:
         out["path"] = {"alpha_multiplier": draw(st.sampled_from([3.0, 1.5])), "min_features": draw(st.integers(1, 2)),
                        "max_patience": draw(st.integers(1, 2))}
@@ -173,7 +209,8 @@ def oracle_train(case):
 
     est._compute_grads = under
     try:
-        add_mlcl_constraint(est, ml or None, cl or None, factor)
+        kinds = case.get("containers", ["list", "list"])
+        add_mlcl_constraint(est, contain(ml, kinds[0]), contain(cl, kinds[1]), factor)
     except ValueError as e:
         raise Violation(f"{label}: consistent constraints were rejected: {e}")
     with warnings.catch_warnings():
@@ -189,7 +226,7 @@ def oracle_train(case):
             except Exception as e:
                 return {"nontrivial": False, "classes": [s["cls"] + ":fit_raised"], "counts": {"fit_raised": 1},
                         "note": f"{type(e).__name__}: {e}"}
-    return {"nontrivial": bool(seen["displaced"] >= 1), "classes": [s["cls"]],
+    return {"nontrivial": bool(seen["displaced"] >= 1), "classes": [s["cls"]] + ["pairs:" + k for k in case.get("containers", [])],
             "counts": {"steps": seen["steps"], "active_pairs": seen["active"], "displaced_pairs": seen["displaced"]}}
 
 
